@@ -1909,3 +1909,8 @@ impl<T, A: smallvec::Array<Item = T>> HasResizeWith<T> for SmallVec<A> {
         self.resize_with(new_size, f);
     }
 }
+
+#[cfg(kani)]
+mod verif_kani {
+    include!(concat!(env!("EGGLOG_VERIF_DIR"), "/kani/bridge_merge.rs"));
+}
